@@ -234,6 +234,83 @@ func runC17(r *Run) {
 		r.check(len(add) >= 1, "replay:headers-additive", r.fpos(c.lookup), "headers are replayed with Add (multi-valued headers survive)", "headers are replayed with a replacing setter: multi-valued headers collapse")
 	})
 
+	r.rule("R10", "the list of headers to keep is matched in one spelling: the names put into the keep set and the names looked up in it go through a case fold of the same kind (lower case on both sides, or the canonical MIME form on both sides) — with DisableHeaderNormalizing a response header is spelled as the handler wrote it (E5, writer and reader agree)", func() {
+		f := r.Fn(idemPkg, "New")
+		class := func(key ssa.Value) string {
+			cls := "as written"
+			dependsOn(key, func(v ssa.Value) bool {
+				c, ok := v.(*ssa.Call)
+				if !ok {
+					return false
+				}
+				switch nm := calleeName(&c.Call); {
+				case nm == "strings.ToLower", nm == "bytes.ToLower", strings.HasPrefix(nm, "github.com/gofiber/utils/v2.ToLower"):
+					cls = "lower case"
+					return true
+				case nm == "strings.ToUpper", strings.HasPrefix(nm, "github.com/gofiber/utils/v2.ToUpper"):
+					cls = "upper case"
+					return true
+				case nm == "net/http.CanonicalHeaderKey", nm == "net/textproto.CanonicalMIMEHeaderKey":
+					cls = "canonical MIME form"
+					return true
+				}
+				return false
+			})
+			return cls
+		}
+		isSet := func(t types.Type) bool {
+			m, ok := t.Underlying().(*types.Map)
+			if !ok {
+				return false
+			}
+			st, ok := m.Elem().Underlying().(*types.Struct)
+			return ok && st.NumFields() == 0
+		}
+		writes, reads := map[string]string{}, map[string]string{}
+		// New, its closures, and the helpers they call (the filter loop may live in a function of its own)
+		scope := append([]*ssa.Function{f}, anonFuncsDeep(f)...)
+		seenFn := map[*ssa.Function]bool{}
+		for _, g := range scope {
+			seenFn[g] = true
+		}
+		for _, g := range append([]*ssa.Function{}, scope...) {
+			for _, hlp := range helpersOf(g) {
+				if !seenFn[hlp] {
+					seenFn[hlp] = true
+					scope = append(scope, hlp)
+				}
+			}
+		}
+		for _, g := range scope {
+			for _, b := range g.Blocks {
+				for _, in := range b.Instrs {
+					switch x := in.(type) {
+					case *ssa.MapUpdate:
+						if isSet(x.Map.Type()) {
+							writes[class(x.Key)] = r.pos(in)
+						}
+					case *ssa.Lookup:
+						if isSet(x.X.Type()) {
+							reads[class(x.Index)] = r.pos(in)
+						}
+					}
+				}
+			}
+		}
+		r.need(len(writes) > 0 && len(reads) > 0, "New fills a set of header names and looks names up in it")
+		ok := len(writes) == 1 && len(reads) == 1
+		var w, rd string
+		for k := range writes {
+			w = k
+		}
+		for k := range reads {
+			rd = k
+		}
+		ok = ok && w == rd && w != "as written"
+		r.check(ok, "New:keep-set:one-spelling", r.fpos(f), "names are inserted and looked up in "+w,
+			fmt.Sprintf("the names of the headers to keep are stored in %s (%s) but looked up in %s (%s): with DisableHeaderNormalizing a header the handler wrote as `x-trace-id` is not found, it is dropped from the stored answer and every replay lacks it", w, writes[w], rd, reads[rd]))
+	})
+
 	r.rule("R9", "a stored answer that cannot be read is a failed lookup, not a miss: in the lookup closure the error edge of Storage.Get and of the decoder leads to a non-nil error only (a miss would run the handler again and overwrite the stored answer) (E1, error discipline)", func() {
 		c := get()
 		lk := c.lookup
